@@ -39,7 +39,8 @@ def required_cells(tier):
     return ['reparse', 'lines-once-in-order', 'prefix:off', 'want:off', 'linenos:doctest-relative',
             'linenos:file-relative', 'wrapper:google', 'wrapper:freeform', 'multi-line-want', 'eval-mode', 'single-mode',
             'digits:1', 'digits:2', 'digits:3', 'digits:4', 'display-leaves-doctest-unchanged', 'corpus:repo', 'want-with-trailing-blanks',
-            'linenos:session=True,call=False', 'linenos:session=True,call=None', 'linenos:session=False,call=None'] + (
+            'linenos:session=True,call=False', 'linenos:session=True,call=None', 'linenos:session=False,call=None',
+            'gutter:prompts=False,wants=True', 'gutter:prompts=True,wants=True', 'gutter:prompts=False,wants=False'] + (
                 ['corpus:stdlib'] if tier == 'thorough' else [])
 
 
@@ -65,6 +66,10 @@ def gen_case(seed):
         if rng.random() < 0.25:
             i = g.nid()
             extra.append(gp.Stmt(['val(%d)' % i], 'val', i, is_expr=True))
+        elif rng.random() < 0.12:
+            # a bare literal: its text (and its echoed value) is a number, like the line numbers next to it
+            i = g.nid()
+            extra.append(gp.Stmt([str(rng.choice([1, 2, 3, 5, 10, 11, 12, 21]))], 'intlit', i, is_expr=True))
     stmts = extra
     ref = gp.run_reference(stmts, repl_values=True)
     if ref.error is not None:
@@ -82,6 +87,9 @@ def layout_with_values(rng, stmts, ref):
         if st.kind == 'val':
             if not pending and rng.random() < 0.8:
                 wants[si] = ['R%d' % st.sid]
+        elif st.kind == 'intlit':
+            if not pending and rng.random() < 0.8:
+                wants[si] = [st.lines[0]]
         elif pending and rng.random() < layout.want_prob:
             cand = pending.rstrip('\n').split('\n')
             if gp.want_is_layoutable(cand):
@@ -237,6 +245,44 @@ def check_case(ctx, index, case_seed):
         if off:
             ctx.cell('digits:%d' % len(str(L)))
     dt.config['offset_linenos'] = False
+    # ------------------------------------------------ 3b. the numbered display is the unnumbered one behind a gutter
+    for pfx in (True, False):
+        for wnt in (True, False):
+            plain = dt.format_src(linenos=False, colored=False, want=wnt, prefix=pfx).split('\n')
+            numbered = dt.format_src(linenos=True, colored=False, want=wnt, prefix=pfx, offset_linenos=False).split('\n')
+            ctx.event('format_src_calls', 2)
+            what = 'prompts %s, wants %s' % ('on' if pfx else 'off', 'on' if wnt else 'off')
+            if len(plain) != len(numbered):
+                bad('gutter', 'with line numbers (%s) %d lines are displayed, without them %d' % (what, len(numbered), len(plain)))
+                return
+            # in front of a source line stands its number, in front of a want line a blank number column (at least
+            # two columns: room for a digit and the separating blank), so that a want is never read as a numbered line
+            q = 0
+            first_prompt = next(i for i, ln in enumerate(dlines) if ln.lstrip().startswith('>>>'))
+            for p in dt._parts:
+                nsrc = len(p.exec_lines)
+                n = nsrc + (len(p.want_lines or []) if wnt else 0)
+                for j, (a, b) in enumerate(zip(numbered[q:q + n], plain[q:q + n])):
+                    if not a.endswith(b):
+                        bad('gutter', 'with line numbers (%s) the line %r is displayed as %r' % (what, b, a))
+                        return
+                    gutter = a[:len(a) - len(b)]
+                    if j < nsrc:
+                        if not (gutter.endswith(' ') and gutter.strip().isdigit()):
+                            bad('gutter', 'with line numbers (%s) the source line %r is displayed as %r: no number in front' % (
+                                what, b, a))
+                            return
+                        if int(gutter) != p.line_offset + j + 1:
+                            bad('gutter', 'with line numbers (%s) the source line %r carries number %d, it is line %d of the '
+                                'doctest' % (what, b, int(gutter), p.line_offset + j + 1))
+                            return
+                    elif gutter.strip() or len(gutter) < 2:
+                        bad('gutter', 'with line numbers (%s) the want line %r is displayed as %r: its number column %r is not '
+                            'blank / too narrow, the want reads as a numbered line\n%s' % (
+                                what, b, a, gutter, '\n'.join(numbered[q:q + n])))
+                        return
+                q += n
+            ctx.cell('gutter:prompts=%s,wants=%s' % (pfx, wnt))
     # ------------------------------------------------ 4. displaying a doctest does not change it
     if signature(dt) != s1 or dt.format_src(linenos=False, colored=False, want=True, prefix=True) != text:
         bad('format-mutates', 'after being displayed under the other option sets the same DocTest object formats / parses '
